@@ -1,8 +1,10 @@
 (* tparse.ml -- glue for the template parser model (component tparse, C01/C02).
-   case: "<w> <template units> [<impl tree>]"  ->  "<model tree> <verdict>"
+   case: "<w> <template units>"  ->  "<model tree> <verdict>"
    The model tree is printed in the canonical form of cpp/drv_tparse.cpp
-   (ERR:<class>:<site> when the model reports an error).  verdict: the
-   implementation's tree equals the model's (1 also when no impl tree given). *)
+   (ERR:<class>:<site> when the model reports an error).  verdict (the
+   specification, TparseModel.tree_okb): the tree obeys the offset discipline
+   the renderer relies on; 0 also when the model reports an error.  The
+   comparison with the implementation's tree is done by tools/props/tparse.py. *)
 let sn (x : nat) = string_of_int (int_of_nat x)
 let sN (x : n) = string_of_n x
 
@@ -48,11 +50,10 @@ let dump_err (e : perr) : string =
 let comp_tparse line =
   match tokens line with
   | w :: s :: rest ->
-    let m = (match parse_model (n_of_string w) (parse_list s) with
-             | Ok0 l -> dump_tags l
-             | Error e -> dump_err e) in
-    let verdict = (match rest with [] -> true | out :: _ -> out = m) in
-    m ^ " " ^ fmt_bool verdict
+    let c = parse_list s in
+    (match parse_model (n_of_string w) c with
+     | Ok0 l -> dump_tags l ^ " " ^ fmt_bool (tree_okb (nat_of_int (List.length c)) l)
+     | Error e -> dump_err e ^ " 0")
   | _ -> "BADCASE"
 
 let () = main_loop comp_tparse
